@@ -218,6 +218,8 @@ pub fn evaluate_module(property: &str, rc: &RealCase, obs: &std::collections::Ha
         }
     }
     let a = Analysis::new(&case.g);
+    let reduced_grammar = reduced(&case.g);
+    let reduced_analysis = if rf.all_productive { None } else { Some(Analysis::new(&reduced_grammar)) };
     acc.inc("modules run");
     // the model of the same emitted text, for binding model traces to the implementation
     let bound = match crate::gramsweep::bind(case, &rc.text) {
@@ -350,13 +352,32 @@ pub fn evaluate_module(property: &str, rc: &RealCase, obs: &std::collections::Ha
                 "C03" => {
                     if want_class != "OK" && got_class != "OK" && got_class != "PANIC" {
                         acc.inc("rejections compared");
-                        if o.desc != want_desc {
+                        let mut agrees = o.desc == want_desc;
+                        let mut limit = match &res {
+                            ParseResult::Reject(Some(i)) => i + 1,
+                            _ => w.len() + 1,
+                        };
+                        if !agrees && got_class == "ERR" && use_ref {
+                            if let Some(ra) = &reduced_analysis {
+                                // Unproductive nonterminals: the statement read literally (no *sentence* extends the prefix)
+                                // can name an earlier token than a canonical LR parser, which C17 demands, does (no
+                                // *sentential form* extends it). Every index between the two readings is accepted.
+                                let canonical = limit - 1;
+                                if let Some(literal) = literal_error_index(ra, &w) {
+                                    for e in (literal..=canonical.min(w.len().saturating_sub(1))).rev() {
+                                        if e < w.len() && o.desc == format!("ERR {}({})", case.rendered.names.terminals[w[e] as usize], if konst { 0 } else { e }) {
+                                            agrees = true;
+                                            limit = e + 1;
+                                            acc.inc("rejections before the LR(1) reference stops, at a prefix that no sentence extends (unproductive nonterminals; allowed by the statement)");
+                                            break;
+                                        }
+                                    }
+                                }
+                            }
+                        }
+                        if !agrees {
                             problem = Some((format!("rejection of {w:?} reports {} instead of {}", o.desc, want_desc), json!(want_desc), json!(o.desc)));
                         } else if mode < 2 {
-                            let limit = match &res {
-                                ParseResult::Reject(Some(i)) => i + 1,
-                                _ => w.len() + 1,
-                            };
                             if o.count > limit {
                                 problem = Some((format!("rejecting {w:?} pulled {} items from the input iterator, the reported token is item {}", o.count, limit), json!(format!("at most {limit} calls to next()")), json!(o.count)));
                             }
